@@ -82,6 +82,9 @@ func main() {
 		}
 		chosen = append(chosen, c.d)
 	}
+	if *focus == "" && *n >= 8 {
+		chosen[*n-1] = gen.MatrixDesign("m") // the one design that is enumerated, not drawn
+	}
 	for i, d := range chosen {
 		name := fmt.Sprintf("d%d", i)
 		d.Name = name
